@@ -293,7 +293,10 @@ def generate(tier, rng):
             yield 'SX %s %d %d %s %s %s' % ('s' if s else 'u', n, f, r, rng.choice(['pyfloat', 'arr']), tok_frac(v))
         else:
             k = rng.choice([rng.randint(0, 70), rng.randint(60, 1000)])
-            v = rng.choice([1 << k, -(1 << k), (1 << k) - 1, -(1 << k) - 1, rng.getrandbits(k + 1) * rng.choice([1, -1])])
+            v = rng.choice([1 << k, -(1 << k), (1 << k) - 1, -(1 << k) - 1, rng.getrandbits(k + 1) * rng.choice([1, -1]),
+                            # the windows in which NumPy picks uint64 / wraps int64 by itself
+                            (1 << 63) + rng.getrandbits(62), (1 << 64) - 1 - rng.getrandbits(8), 1 << 63, -(1 << 63) - 1 - rng.getrandbits(8),
+                            ((1 << 63) + rng.getrandbits(60)) >> f, -(((1 << 63) + rng.getrandbits(60)) >> f)])
             yield 'SX %s %d %d %s %s %d' % ('s' if s else 'u', n, f, r, rng.choice(['pyint', 'list']), v)
 
 
